@@ -1318,6 +1318,18 @@ def install(prog):
     @M(r"<.* as thiserror::__private::AsDisplay.*>::as_display")
     def _(it, m, a): return a[0]
 
+    @M(r'(?:std|core)::char::methods::<impl char>::encode_utf8')
+    def _(it, m, a):
+        # -> &mut str holding the character (the byte buffer itself is not modelled: strings are lists of scalar values)
+        ch = deref(a[0])
+        return StrRef(StrObj([(ch, len_utf8(it, ch))]))
+
+    @M(r'(?:std|core)::cmp::Ord::max|<usize as Ord>::max|(?:std|core)::cmp::max::<usize>')
+    def _(it, m, a):
+        x, y = deref(a[0]), deref(a[1])
+        if not is_sym(x) and not is_sym(y): return max(x, y)
+        return y if it.branch(it.binop('Lt', x, y, 'usize')) else x
+
     @M(r'<char as (?:std::fmt::)?Display>::fmt')
     def _(it, m, a):
         ch = deref(a[0]); deref(a[1]).f[0].out.append((ch, len_utf8(it, ch))); return mk_ok(UNIT)
